@@ -57,9 +57,9 @@ func main() {
 			"a control request unanswered for 60000 cycles, or a data request unanswered 150000 cycles after the final Enable, is reported as never answered (bounded-progress restatement)",
 		},
 		Plan: func(tier string, seed int64) []kit.Batch {
-			per, n, verbs := 2, 13, 40
+			per, n, verbs := 2, 25, 40
 			if tier == "thorough" {
-				per, n = 4, 375
+				per, n = 8, 750
 			}
 			var bs []kit.Batch
 			for ai, a := range agentNames {
